@@ -70,7 +70,7 @@ func (cr *crun) newInst(name string, cfg *Cfg) {
 func opJSON(op *Op) string {
 	return obj("op", js(op.Op), "inst", js(op.Inst), "pat", js(op.Pat), "methods", jarr(op.Methods), "h", js(op.Val), "method", js(op.Method),
 		"path", js(op.Path), "host", js(op.Host), "strict", jbool(op.Strict), "params", jmap(op.Params), "wit", js(op.Key), "wps", jmap(op.Hdr),
-		"prefix", js(op.Prefix), "domains", jarr(op.Domains))
+		"prefix", js(op.Prefix), "domains", jarr(op.Domains), "faults", jmap(op.Faults))
 }
 
 // exec1 performs one op and returns its result as JSON.
@@ -114,6 +114,10 @@ func (cr *crun) exec1(g string, op *Op, evs *[]cev) string {
 	case "serve":
 		o := newObs()
 		o.w = newRecW()
+		o.w.o = o
+		if len(op.Faults) > 0 {
+			o.faults = map[string]string(op.Faults)
+		}
 		if cr.log && evs != nil {
 			o.hook = func(ev, ctx string) {
 				s := atomic.AddInt64(&cr.ctr, 1)
@@ -258,8 +262,9 @@ func (rn *runner) runConcCase(c *Case, raw []byte) {
 				kind = "exit"
 			}
 		}
-	case <-time.After(120 * time.Second):
+	case <-time.After(40 * time.Second):
 		cmd.Process.Kill()
+		<-done // the copier goroutines must be finished before the buffers are read
 		kind = "hang"
 	}
 	n := 0
